@@ -51,8 +51,8 @@ def numText (n : NumLit) : String :=
   toString n.int ++ "." ++ String.join (frac.map toString)
 
 /-- `LabelFilterPlanner.makeSqlCond` with the label getter of the simple planner
-    (`JSONExtractString(labels, '<name>')`) -/
-def labelGetterTS (name : String) : Expr := .raw ("JSONExtractString(labels, '" ++ name ++ "')")
+    (`JSONExtractString(labels, '<name>')`; the name is restricted by the LogQL lexer to `[a-zA-Z_][a-zA-Z0-9_]*`) -/
+def labelGetterTS (name : String) : Expr := .call "JSONExtractString" [.raw "labels", .lit name]
 
 def labelCondSql (getter : String → Expr) : LabelCond → Expr
   | .str l op v =>
@@ -63,7 +63,7 @@ def labelCondSql (getter : String → Expr) : LabelCond → Expr
     | .nre => eq (.call "match" [getter l, .str v]) (.int 0)
   | .num l op v =>
     let lab := Expr.call "toFloat64OrNull" [getter l]
-    let lit := Expr.raw (numText v)
+    let lit := Expr.numLit (numText v)
     and_ [.notNull lab,
       match op with
       | .eq => eq lab lit | .neq => neq lab lit | .gt => gt lab lit | .ge => ge lab lit
@@ -71,18 +71,19 @@ def labelCondSql (getter : String → Expr) : LabelCond → Expr
   | .and l r => and_ [labelCondSql getter l, labelCondSql getter r]
   | .or l r => or_ [labelCondSql getter l, labelCondSql getter r]
 
-/-- `SimpleLabelFilterPlanner.Process`: wrap the fingerprint select in `subsel_<id>` and filter on time_series -/
-def simpleLabelFilter (c : Ctx) (id : Nat) (fp : Sel) (cond : LabelCond) : Sel :=
-  let alias := "subsel_" ++ toString id
-  let base : Sel := .mk [] false [.raw "fingerprint"] (some (.raw c.tsTable)) [] none none [] none [] none
-  ((base.with_ [(alias, fp)]).andWhere [.isIn (.raw "fingerprint") [.withRef alias]]).andWhere
-    [labelCondSql labelGetterTS cond]
+/-- body of `SimpleLabelFilterPlanner.Process`: filter the fingerprints of `subsel_<k>` on time_series -/
+def labelFilterBody (c : Ctx) (k : Nat) (cond : LabelCond) : Sel :=
+  .mk [] false [.raw "fingerprint"] (some (.raw c.tsTable)) [] none
+    (some (and_ [.isIn (.raw "fingerprint") [.withRef (.sub k)], labelCondSql labelGetterTS cond])) [] none [] none
 
-/-- `planTS`: stream selector wrapped by every simple label filter, in pipeline order; ids from `ctx.Id()` -/
-def planFp (c : Ctx) (q : LogQuery) : Sel :=
-  let conds := q.stages.filterMap (fun | .label lc => some lc | _ => none)
-  -- the outermost planner is the LAST filter; Process recurses first, so ids are handed out innermost-first
-  (conds.foldl (fun (acc : Sel × Nat) lc => (simpleLabelFilter c (acc.2 + 1) acc.1 lc, acc.2 + 1)) (streamSelect c q.matchers, 0)).1
+/-- `planTS` flattened: the stream selector wrapped by every simple label filter, in pipeline order;
+    every inner select becomes `subsel_<id>` (ids from `ctx.Id()`), the outermost one `fp_sel`. -/
+def fpChain (c : Ctx) (cur : Sel) (k : Nat) : List LabelCond → List (Alias × Sel)
+  | [] => [(.named "fp_sel", cur)]
+  | lc :: rest => (.sub (k + 1), cur) :: fpChain c (labelFilterBody c (k + 1) lc) (k + 1) rest
+
+def labelConds (q : LogQuery) : List LabelCond := q.stages.filterMap (fun | .label lc => some lc | _ => none)
+def lineFilters (q : LogQuery) : List LineFilter := q.stages.filterMap (fun | .line f => some f | _ => none)
 
 /-- `LineFilterPlanner.doLike` (after the `fix:`): `like(samples.string, '%<LIKE-escaped needle>%')` -/
 def likeClause (fn : String) (needle : Bytes) : Expr :=
@@ -100,55 +101,48 @@ def lineClause (f : LineFilter) : Expr :=
     | some li => likeClause (if li.insensitive then "notILike" else "notLike") li.lit
     | none => eq (.matchFn (.raw "string") f.val) (.int 0)
 
-/-- `SqlMainInitPlanner.Process` -/
-def mainInit (c : Ctx) : Sel :=
+def dirOf (c : Ctx) : Dir := if c.orderAsc then .asc else .desc
+
+/-- `SqlMainInitPlanner` + `FingerprintFilterPlanner` + the line filters + `MainOrderByPlanner` + `MainLimitPlanner` -/
+def mainSel (c : Ctx) (q : LogQuery) : Sel :=
   .mk [] false
     [simpleCol "samples.timestamp_ns" "timestamp_ns", simpleCol "samples.fingerprint" "fingerprint",
      simpleCol "samples.string" "string", simpleCol "toFloat64(0)" "value"]
     (some (.col (.raw c.samplesTable) "samples")) []
     (some (and_ [ge (.raw "samples.timestamp_ns") (.int c.fromNs),
                  lt (.raw "samples.timestamp_ns") (.int c.toNs), getTypes c]))
-    none [] none [] none
+    (some (and_ (.isIn (.raw "samples.fingerprint") [.withRef (.named "fp_sel")] :: (lineFilters q).map lineClause)))
+    [] none [.orderBy (.raw "timestamp_ns") (dirOf c)]
+    (if c.limit = 0 then none else some (.int c.limit))
 
-def dirOf (c : Ctx) : Dir := if c.orderAsc then .asc else .desc
-
-/-- `TimeSeriesInitPlanner.Process` -/
-def timeSeriesInit (c : Ctx) : Sel :=
+/-- `TimeSeriesInitPlanner` restricted to the selected fingerprints (`LabelsJoinPlanner`) -/
+def timeSeriesSel (c : Ctx) : Sel :=
   .mk [] false
-    [simpleCol "time_series.fingerprint" "fingerprint",
-     simpleCol ("mapFromArrays(arrayMap(x -> x.1, JSONExtractKeysAndValues(time_series.labels, 'String') as rawlbls), " ++
-                "arrayMap(x -> x.2, rawlbls))") "labels"]
+    [simpleCol "time_series.fingerprint" "fingerprint", .col .tsLabels "labels"]
     (some (.col (.raw c.tsDistTable) "time_series")) []
-    (some (and_ [ge (.raw "time_series.date") (.str (Time.formatFromDate c.fromNs)), getTypes c]))
+    (some (and_ [ge (.raw "time_series.date") (.str (Time.formatFromDate c.fromNs)), getTypes c,
+                 .isIn (.raw "time_series.fingerprint") [.withRef (.named "fp_sel")]]))
     none [] none [] none
 
-/-- the whole plan for a log query of the fragment, `finalize = true`, `CHFinalize = true` -/
+/-- `LabelsJoinPlanner.Process` -/
+def joinedSel (c : Ctx) : Sel :=
+  .mk [] false
+    [simpleCol "main.fingerprint" "fingerprint", simpleCol "main.timestamp_ns" "timestamp_ns",
+     simpleCol "_time_series.labels" "labels", simpleCol "main.string" "string", simpleCol "main.value" "value"]
+    (some (.withRef (.named "main")))
+    [(if c.isCluster then "GLOBAL ANY LEFT " else "ANY LEFT ", .named "_time_series",
+      eq (.raw "main.fingerprint") (.raw "_time_series.fingerprint"))]
+    none none [] none [] none
+
+/-- The whole plan for a log query of the fragment (`finalize = true`, `CHFinalize = true`), with the
+    WITH list in the hoisted, de-duplicated order `Select.AddWith` produces. -/
 def planLog (c : Ctx) (q : LogQuery) : Sel :=
-  let fp := planFp c q
-  let fpW : String × Sel := ("fp_sel", fp)
-  -- FingerprintFilterPlanner over SqlMainInitPlanner
-  let main0 := ((mainInit c).with_ [fpW]).andWhere [.isIn (.raw "samples.fingerprint") [.withRef "fp_sel"]]
-  -- line filters, in order
-  let main1 := (q.stages.filterMap (fun | .line f => some f | _ => none)).foldl (fun s f => s.andWhere [lineClause f]) main0
-  -- MainOrderByPlanner, MainLimitPlanner
-  let main2 := main1.setOrderBy [.orderBy (.raw "timestamp_ns") (dirOf c)]
-  let main3 := if c.limit = 0 then main2 else main2.setLimit (some (.int c.limit))
-  -- LabelsJoinPlanner
-  let ts := ((timeSeriesInit c).with_ [fpW]).andPreWhere [.isIn (.raw "time_series.fingerprint") [.withRef "fp_sel"]]
-  let joined : Sel :=
-    (Sel.mk [] false
-      [simpleCol "main.fingerprint" "fingerprint", simpleCol "main.timestamp_ns" "timestamp_ns",
-       simpleCol "_time_series.labels" "labels", simpleCol "main.string" "string", simpleCol "main.value" "value"]
-      (some (.withRef "main"))
-      [(if c.isCluster then "GLOBAL ANY LEFT " else "ANY LEFT ", .withRef "_time_series",
-        eq (.raw "main.fingerprint") (.raw "_time_series.fingerprint"))]
-      none none [] none [] none).with_ [("main", main3), ("_time_series", ts)]
-  -- MainFinalizerPlanner (IsFinal, not matrix)
-  (Sel.mk [] false
+  .mk (fpChain c (streamSelect c q.matchers) 0 (labelConds q) ++
+        [(.named "main", mainSel c q), (.named "_time_series", timeSeriesSel c), (.named "prefinal", joinedSel c)])
+    false
     [simpleCol "prefinal.fingerprint" "fingerprint", simpleCol "prefinal.labels" "labels",
      simpleCol "prefinal.string" "string", simpleCol "prefinal.timestamp_ns" "timestamp_ns"]
-    (some (.withRef "prefinal")) [] none none [] none
-    [.orderBy (.raw "fingerprint") (dirOf c), .orderBy (.raw "timestamp_ns") (dirOf c)] none).with_
-    [("prefinal", joined)]
+    (some (.withRef (.named "prefinal"))) [] none none [] none
+    [.orderBy (.raw "fingerprint") (dirOf c), .orderBy (.raw "timestamp_ns") (dirOf c)] none
 
 end Qryn.LogQL
